@@ -197,6 +197,3 @@ Definition sb_write2_be (w : nat) (v0 v1 : list N) (m : mem) (s : slice) : res m
   sb_write2 (bswap_bytes w v0) (bswap_bytes w v1) m s.
 Definition sb_write4_be (w : nat) (v0 v1 v2 v3 : list N) (m : mem) (s : slice) : res mem :=
   sb_write4 (bswap_bytes w v0) (bswap_bytes w v1) (bswap_bytes w v2) (bswap_bytes w v3) m s.
-
-(** [dst[p .. p + len(v)] = v] on raw memory (the closed form of a successful [sb_write]) *)
-Definition put (m : mem) (p : nat) (v : list N) : mem := firstn p m ++ v ++ skipn (p + length v) m.
